@@ -377,6 +377,17 @@ Lemma st_iter_one st i e m sz : st_get st i = Some e -> m < sz + esize e ->
   st_iter 1 st i sz m = ([e], sz + esize e).
 Proof. intros G H. cbn [st_iter]. rewrite G. destruct (m <? sz + esize e) eqn:E; [reflexivity|lia]. Qed.
 
+Lemma st_first_present_here fuel st i e : st_get st i = Some e -> st_first_present fuel st i = i.
+Proof. intros H. destruct fuel; cbn [st_first_present]; [reflexivity|]. rewrite H. reflexivity. Qed.
+
+(* when the first index asked for is present, a permissive store iterates like a strict one *)
+Lemma st_iterate_present st low high m e : st_get st low = Some e ->
+  st_iterate st low high m = st_iter (N.to_nat (N.min high (st_max st + 1) - low)) st low 0 m.
+Proof.
+  intros H. unfold st_iterate. destruct (st_skip st); [|reflexivity].
+  rewrite (st_first_present_here _ _ _ _ H). reflexivity.
+Qed.
+
 Lemma v_lr_term w sp i : R w sp -> rd_ok sp = true -> sp_mi sp <= i -> i <= cover sp ->
   lr_term (w_lr w) (w_st w) i = Ok (sp_term sp i).
 Proof.
@@ -390,7 +401,7 @@ Proof.
   unfold lr_entries_locked. rewrite A.
   destruct (i + 1 <? i) eqn:E1; [lia|]. destruct (i <=? sp_mi sp) eqn:E2; [lia|].
   destruct (lr_last (w_lr w) + 1 <? i + 1) eqn:E3; [lia|].
-  unfold st_iterate. replace (N.to_nat (N.min (i + 1) (st_max (w_st w) + 1) - i)) with 1%nat by lia.
+  rewrite (st_iterate_present _ _ _ _ _ Gs). replace (N.to_nat (N.min (i + 1) (st_max (w_st w) + 1) - i)) with 1%nat by lia.
   rewrite (st_iter_one _ _ e) by (auto; pose proof (esize_pos e); lia).
   destruct ((nlen [e] =? i + 1 - i) || (0 <? 0 + esize e)) eqn:Ec.
   2:{ unfold nlen in Ec. cbn [length] in Ec. lia. }
@@ -587,7 +598,10 @@ Proof.
   unfold lr_entries, lr_entries_locked. rewrite A.
   destruct (up <? lo) eqn:E1; [lia|]. destruct (lo <=? sp_mi sp) eqn:E2; [lia|].
   destruct (lr_last (w_lr w) + 1 <? up) eqn:E3; [lia|].
-  unfold st_iterate. pose proof (r_stmax _ _ HR) as SM.
+  pose proof (r_stmax _ _ HR) as SM.
+  destruct (sp_get_in sp lo HS) as [e0 Ge0]; [lia|lia|].
+  assert (Gs0 : st_get (w_st w) lo = Some e0) by (rewrite (r_st _ _ HR) by lia; exact Ge0).
+  rewrite (st_iterate_present _ _ _ _ _ Gs0).
   replace (N.min up (st_max (w_st w) + 1)) with up by lia.
   set (S := sp_slice sp lo up).
   assert (HL : length S = N.to_nat (up - lo)) by (apply slice_len; lia).
@@ -1066,8 +1080,8 @@ Proof.
     unfold nlen in E. lia.
 Qed.
 
-Lemma R_init_rl rlon mi mt ents c limit : wf_init mi mt ents c = true ->
-  R (w_init_rl rlon mi mt ents c limit) (sp_init mi mt ents c).
+Lemma R_init_opt skip rlon mi mt ents c limit : wf_init mi mt ents c = true ->
+  R (w_init_opt skip rlon mi mt ents c limit) (sp_init mi mt ents c).
 Proof.
   intros Hwf. unfold wf_init in Hwf. repeat (apply andb_true_iff in Hwf as [Hwf ?]).
   destruct (bool_log_ok _ _ _ Hwf H2) as (Hlog & _); [lia|].
@@ -1086,7 +1100,7 @@ Proof.
         destruct (mi + 1 - 0 <? 1) eqn:E3; [lia|]. destruct (1 =? mi + 1 - 0) eqn:E4; [|lia].
         cbn [lr_marker lr_len lr_mterm lr_ssidx]. repeat split; lia. }
   destruct HLR as (lr & Elr & L1 & L2 & L3 & L4).
-  unfold w_init_rl. rewrite <- ?Hn. rewrite Elr. unfold el_new, im_new, lr_first, lr_last. rewrite L1, L3.
+  unfold w_init_opt. rewrite <- ?Hn. rewrite Elr. unfold el_new, im_new, lr_first, lr_last. rewrite L1, L3.
   assert (Hlast : sp_last (sp_init mi mt ents c) = mi + n) by (unfold sp_last; cbn; lia).
   unfold sp_init in *.
   constructor; cbn [w_el w_lr w_st w_queue el_im el_committed el_processed im_saved im_marker im_ents im_snap im_aidx im_aterm im_rl
@@ -1113,6 +1127,10 @@ Proof.
   - reflexivity.
   - destruct rlon; intros k Hk; inversion Hk. reflexivity.
 Qed.
+
+Lemma R_init_rl rlon mi mt ents c limit : wf_init mi mt ents c = true ->
+  R (w_init_rl rlon mi mt ents c limit) (sp_init mi mt ents c).
+Proof. apply R_init_opt. Qed.
 
 Lemma R_init mi mt ents c limit : wf_init mi mt ents c = true ->
   R (w_init mi mt ents c limit) (sp_init mi mt ents c).
@@ -1839,47 +1857,47 @@ Proof.
     exists w'. split; [|split; [exact HR'|exact Hl']]. cbn [run]. rewrite Hs. cbn [bind]. exact Hr.
 Qed.
 
-Lemma run_init rlon limit mi mt ents c ops :
+Lemma run_init skip rlon limit mi mt ents c ops :
   wf_init mi mt ents c = true -> wf_ops limit (sp_init mi mt ents c) ops = true ->
-  exists w', run (w_init_rl rlon mi mt ents c limit) ops = Ok w' /\ R w' (sp_run limit (sp_init mi mt ents c) ops)
+  exists w', run (w_init_opt skip rlon mi mt ents c limit) ops = Ok w' /\ R w' (sp_run limit (sp_init mi mt ents c) ops)
              /\ w_limit w' = limit.
-Proof. intros Hi Hwf. apply run_all; auto. apply R_init_rl; auto. Qed.
+Proof. intros Hi Hwf. apply run_all; auto. apply R_init_opt; auto. Qed.
 
 (* for ALL well-formed operation sequences (every constructor of op), from every
    well-formed restart state: the run succeeds and all views equal the logical log's *)
-Theorem logview_refines_proved : forall rlon mi mt ents c limit ops,
+Theorem logview_refines_proved : forall skip rlon mi mt ents c limit ops,
   wf_init mi mt ents c = true ->
   wf_ops limit (sp_init mi mt ents c) ops = true ->
-  exists w', run (w_init_rl rlon mi mt ents c limit) ops = Ok w' /\
+  exists w', run (w_init_opt skip rlon mi mt ents c limit) ops = Ok w' /\
              views_eq w' (sp_run limit (sp_init mi mt ents c) ops).
 Proof.
-  intros rlon mi mt ents c limit ops Hi Hwf.
-  destruct (run_init rlon limit mi mt ents c ops Hi Hwf) as (w' & Hr & HR & _).
+  intros skip rlon mi mt ents c limit ops Hi Hwf.
+  destruct (run_init skip rlon limit mi mt ents c ops Hi Hwf) as (w' & Hr & HR & _).
   exists w'. split; [exact Hr|apply R_views; exact HR].
 Qed.
 
-Theorem err_unreachable_under_wf_proved : forall rlon mi mt ents c limit ops,
+Theorem err_unreachable_under_wf_proved : forall skip rlon mi mt ents c limit ops,
   wf_init mi mt ents c = true ->
   wf_ops limit (sp_init mi mt ents c) ops = true ->
-  (forall t, run (w_init_rl rlon mi mt ents c limit) ops <> Panic t) /\
-  (forall e, run (w_init_rl rlon mi mt ents c limit) ops <> Fail e).
+  (forall t, run (w_init_opt skip rlon mi mt ents c limit) ops <> Panic t) /\
+  (forall e, run (w_init_opt skip rlon mi mt ents c limit) ops <> Fail e).
 Proof.
-  intros rlon mi mt ents c limit ops Hi Hwf.
-  destruct (run_init rlon limit mi mt ents c ops Hi Hwf) as (w' & Hr & _).
+  intros skip rlon mi mt ents c limit ops Hi Hwf.
+  destruct (run_init skip rlon limit mi mt ents c ops Hi Hwf) as (w' & Hr & _).
   rewrite Hr. split; intros; discriminate.
 Qed.
 
 (* whatever counts as saved is in the store in its current version *)
-Theorem saved_entries_persisted_proved : forall rlon mi mt ents c limit ops w',
+Theorem saved_entries_persisted_proved : forall skip rlon mi mt ents c limit ops w',
   wf_init mi mt ents c = true ->
   wf_ops limit (sp_init mi mt ents c) ops = true ->
-  run (w_init_rl rlon mi mt ents c limit) ops = Ok w' ->
+  run (w_init_opt skip rlon mi mt ents c limit) ops = Ok w' ->
   let sp' := sp_run limit (sp_init mi mt ents c) ops in
   forall i, sp_mi sp' < i -> i <= im_saved (el_im (w_el w')) ->
     exists e, st_get (w_st w') i = Some e /\ sp_get sp' i = Some e /\ e_index e = i.
 Proof.
-  intros rlon mi mt ents c limit ops w' Hi Hwf Hrun sp' i H1 H2.
-  destruct (run_init rlon limit mi mt ents c ops Hi Hwf) as (w'' & Hr & HR & _).
+  intros skip rlon mi mt ents c limit ops w' Hi Hwf Hrun sp' i H1 H2.
+  destruct (run_init skip rlon limit mi mt ents c ops Hi Hwf) as (w'' & Hr & HR & _).
   rewrite Hrun in Hr. inversion Hr; subst w''. fold sp' in HR.
   pose proof (r_si _ _ HR) as HS. rewrite (r_s _ _ HR) in H2.
   pose proof (cover_ge_saved _ HS). pose proof (si_sl _ HS).
@@ -1983,10 +2001,10 @@ Qed.
 (* an entry is never handed out for apply before it is committed and handed out
    for persistence (or already saved); FastApply updates apply saved entries only;
    validateUpdate never fires: GetUpdate succeeds in every reachable state *)
-Theorem apply_only_committed_and_handed_to_persist_proved : forall rlon mi mt ents c limit ops w',
+Theorem apply_only_committed_and_handed_to_persist_proved : forall skip rlon mi mt ents c limit ops w',
   wf_init mi mt ents c = true ->
   wf_ops limit (sp_init mi mt ents c) ops = true ->
-  run (w_init_rl rlon mi mt ents c limit) ops = Ok w' ->
+  run (w_init_opt skip rlon mi mt ents c limit) ops = Ok w' ->
   let sp' := sp_run limit (sp_init mi mt ents c) ops in
   forall more la, exists ud, get_update w' more la = Ok ud /\
     (forall e, In e (ud_apply ud) ->
@@ -1994,8 +2012,8 @@ Theorem apply_only_committed_and_handed_to_persist_proved : forall rlon mi mt en
        (e_index e <= im_saved (el_im (w_el w')) \/ In e (ud_save ud))) /\
     (ud_fast ud = true -> forall e, In e (ud_apply ud) -> e_index e <= im_saved (el_im (w_el w'))).
 Proof.
-  intros rlon mi mt ents c limit ops w' Hi Hwf Hrun sp' more la.
-  destruct (run_init rlon limit mi mt ents c ops Hi Hwf) as (w'' & Hr & HR & Hl).
+  intros skip rlon mi mt ents c limit ops w' Hi Hwf Hrun sp' more la.
+  destruct (run_init skip rlon limit mi mt ents c ops Hi Hwf) as (w'' & Hr & HR & Hl).
   rewrite Hrun in Hr. inversion Hr; subst w''. fold sp' in HR.
   destruct (get_update_props limit w' sp' more la HR Hl) as (ud & G1 & G2 & G3 & G4).
   exists ud. split; [exact G1|]. rewrite (r_c _ _ HR), (r_s _ _ HR). split.
@@ -2006,14 +2024,14 @@ Qed.
 (* with a real rate limiter under inMemory (MaxInMemLogSize set): what it has recorded
    is, in every reachable state, exactly pb.GetEntrySliceInMemSize of the in-memory
    entries (Increase / Set / Decrease in merge, appliedLogTo and restore never drift) *)
-Theorem rate_limiter_accounting_exact_proved : forall rlon mi mt ents c limit ops w',
+Theorem rate_limiter_accounting_exact_proved : forall skip rlon mi mt ents c limit ops w',
   wf_init mi mt ents c = true ->
   wf_ops limit (sp_init mi mt ents c) ops = true ->
-  run (w_init_rl rlon mi mt ents c limit) ops = Ok w' ->
+  run (w_init_opt skip rlon mi mt ents c limit) ops = Ok w' ->
   forall n, im_rl (el_im (w_el w')) = Some n -> n = isize (im_ents (el_im (w_el w'))) mod 2 ^ 64.
 Proof.
-  intros rlon mi mt ents c limit ops w' Hi Hwf Hrun.
-  destruct (run_init rlon limit mi mt ents c ops Hi Hwf) as (w'' & Hr & HR & _).
+  intros skip rlon mi mt ents c limit ops w' Hi Hwf Hrun.
+  destruct (run_init skip rlon limit mi mt ents c ops Hi Hwf) as (w'' & Hr & HR & _).
   rewrite Hrun in Hr. inversion Hr; subst w''. apply (r_rl _ _ HR).
 Qed.
 
@@ -2027,14 +2045,14 @@ Theorem logview_refines_partial_proved : forall mi mt ents c limit ops,
   wf_ops limit (sp_init mi mt ents c) ops = true ->
   exists w', run (w_init mi mt ents c limit) ops = Ok w' /\
              views_eq w' (sp_run limit (sp_init mi mt ents c) ops).
-Proof. intros; apply (logview_refines_proved false); auto. Qed.
+Proof. intros; apply (logview_refines_proved false false); auto. Qed.
 
 Theorem err_unreachable_under_wf_partial_proved : forall mi mt ents c limit ops,
   wf_init mi mt ents c = true -> forallb core_op ops = true ->
   wf_ops limit (sp_init mi mt ents c) ops = true ->
   (forall t, run (w_init mi mt ents c limit) ops <> Panic t) /\
   (forall e, run (w_init mi mt ents c limit) ops <> Fail e).
-Proof. intros; apply (err_unreachable_under_wf_proved false); auto. Qed.
+Proof. intros; apply (err_unreachable_under_wf_proved false false); auto. Qed.
 
 Theorem saved_entries_persisted_partial_proved : forall mi mt ents c limit ops w',
   wf_init mi mt ents c = true -> forallb core_op ops = true ->
@@ -2043,4 +2061,4 @@ Theorem saved_entries_persisted_partial_proved : forall mi mt ents c limit ops w
   let sp' := sp_run limit (sp_init mi mt ents c) ops in
   forall i, sp_mi sp' < i -> i <= im_saved (el_im (w_el w')) ->
     exists e, st_get (w_st w') i = Some e /\ sp_get sp' i = Some e /\ e_index e = i.
-Proof. intros mi mt ents c limit ops w' Hi _ Hwf Hrun. apply (saved_entries_persisted_proved false); auto. Qed.
+Proof. intros mi mt ents c limit ops w' Hi _ Hwf Hrun. apply (saved_entries_persisted_proved false false); auto. Qed.
